@@ -161,3 +161,4 @@ NOT_READY = False
 LEVEL_TEXT = "Proof. A statement-level Lean 4 model of BaseNode/Node's private state (parent link, ordered child list per node) and of every structural entry point (parent setter incl. None, children setter and deleter, append, extend, >>, <<, del node[name], sort, sep setter) executes the guards, the snapshot, the pre-/post-assign hooks, the body of the try and the explicit roll-back code in Python's order. Theorems C01.*: wf_init, wf_step, wf_run - for every history from freshly built nodes, every op, every argument (non-node objects, repeated members, self, ancestors, out-of-range ids) and every hook fault, the store is a forest: a node with parent p is listed by p, a listed child names that node as parent, lists are duplicate-free, walking parents terminates (Acc), links stay between existing nodes; reject_loops - self, ancestor, non-node parent and self/ancestor/repeated/non-node member are rejected; setParent_ok / setChildren_ok / delChildren_ok / delItem_ok / sort_perm - an accepted call has exactly the documented effect on every list and every parent link (new child last, given order, previous children become roots, donors keep the order of what is left, nothing else changes); anc_complete - the executable ancestor walk with fuel n is the semantic one (pigeon-hole). The model is tied to /repo on every run by differential testing of whole histories on user subclasses with raising hooks against the compiled model: outcome and whole store after every call. Bridge theorems Bridge.* connect this pointer model with the rose trees on which all read-only functions are specified: the read-back treeOf (follow .children recursively) of a well-formed store is fuel-independent, lists exactly a node and its descendants once each, the forest partitions the node set, and store links coincide with the parent/children relation of the tree in order (treeOf_fuel, treeOf_ids, forest_partition, treeOf_sub/children/parent/addr). Every accepted call, read back, is the documented edit of the forest - parent setter = take the subtree out and append it as last child (exact list equality), None = the subtree becomes a tree of its own, children setter = old children become roots then each member is moved under the node in order, deleter, append/extend/>>/<</del item, sort - and a rejected call leaves the forest unchanged, also for whole histories (setParent_some_refines ... step_refines, step_rej_forest, run_refines; up to the order of the trees), so the tree-level theorems transfer to every reachable state (preorder_transfer with C04, depth_transfer with C12/C03)."
 LEVEL_NOTE = 'Unbounded part (all forests, all histories, all arguments, all fault points) by induction in Lean; the tie is exhaustive over all forests reachable on <=3 (quick) / <=4 (thorough, 193 forests x 1616 op/argument/fault tuples) nodes plus random histories on 5-9 nodes biased to donor parents with >= 4 children. Python objects are ids; hooks may raise but not mutate; the CorruptedTreeError branch is unreachable from well-formed stores and not modelled; sort keys are total rank functions.' + ' Known finding K8 (a BinaryNode accepted as child of a Node without the link being mirrored): every history uses one node class, the finding is replayed separately on every run. Node objects are truthy (no user __bool__/__len__): the library tests nodes by truthiness throughout.'
 TECHNIQUE = 'Lean 4 invariant proof (WF preserved by every modelled statement sequence, closed forms of the setter bodies) + correspondence check (real bigtree vs native model driver) + model-free forest/effect oracle'
+RULE = RULE + ' Fourth session: failing library calls on other objects between the calls of a history (op F: list_to_tree with a second root, a DAG constructor with a cycle, list_to_binarytree with a None, ...; for the model a refused no-op); the corpus and one in 61 of the other histories are replayed in a second interpreter started with `python -O` (BIGTREE_CONF_ASSERTIONS unset) and must behave identically.'
